@@ -108,6 +108,22 @@ def r13_1(ctx, rr):
                             if nm == "Ok" or not binds or diverges(F, a["body"]):
                                 if diverges(F, a["body"]):
                                     ok_exits = True
+                    if m is None:
+                        # `while let Err(actual) = cell.compare_exchange(..) { expected = actual; }` (and the `if let`
+                        # form inside a `loop`): the pattern failing (Ok) leaves the loop
+                        for p in reversed(ps):
+                            if p.get("k") == "If" and p["c"].get("k") == "Let" and any(x is n for x in walk(p["c"]["init"])):
+                                pat = p["c"]["pat"]
+                                binds = pat_bindings(pat)
+                                if pat.get("name", "") == "Err":
+                                    for x in walk(p["th"]):
+                                        if x.get("k") == "Assign" and x["l"].get("k") == "Path" and x["l"].get("id") == xid:
+                                            r = x["r"]
+                                            if r.get("k") == "Path" and r.get("res") == "local" and any(r["id"] == bid for _, bid in binds):
+                                                refreshed = True
+                                    el = p.get("el")
+                                    ok_exits = el is None and loop is not None and loop.get("src") in ("While", "WhileLet") or (el is not None and (diverges(F, el) or any(x.get("k") == "Break" for x in walk(el))))
+                                break
                     if not refreshed:
                         problems.append("the failure arm does not refresh the expected value from the value returned by compare_exchange")
                     if not ok_exits:
